@@ -515,7 +515,6 @@ class Compiler(object):
             number_of_bits = 0
         else:
             mask = int(default, 2)
-            mask >>= lowest_set_bit(mask)
             number_of_bits = len(default) - 2
 
         if number_of_bits > 0:
